@@ -215,7 +215,9 @@ func ExplainGpos(fontInfo *sfnt.Font) []string {
 
 			case *gtab.Gpos2_2:
 				checkType(2)
-				ee.w.WriteString("\n\t")
+				if i == 0 {
+					ee.w.WriteString("\n\t")
+				}
 				ee.w.WriteRune('/')
 				ee.writeGlyphList(l.Cov.Glyphs())
 				ee.w.WriteRune('/')
